@@ -262,6 +262,10 @@ func (CoreScenario) Gen(r *rand.Rand, prop string) *SvcCase {
 	if chance(r, 10) {
 		c.LosePct = 10
 	}
+	if lifecycle && chance(r, 12) {
+		c.BlockingConn = true
+		c.InCh = pick(r, 1, 1, 2)
+	}
 	id := 0
 	next := func() int { id++; return id }
 	withQE := chance(r, 20)
